@@ -13,6 +13,7 @@ from pyvc import heap as H
 from pyvc.heap import PENDING, RESULT, EXC, CANCELLED, st
 
 LEVEL = "other"
+STANDIN_ALWAYS_THOROUGH = True      # its large bound takes seconds: used at both tiers
 EXPLANATION = ("MIXED: per-operation contracts of Condition/Event proved by SMT from arbitrary states with unbounded "
                "waiter queues (wait, on_timeout, notify_all, Event.wait/clear and the registered lambdas); "
                "Condition.notify's two-loop functional postcondition and Event.set are explored symbolically for "
